@@ -855,13 +855,21 @@ package formula
 //@           invariant (forall k int :: 0 <= k && k < low ==> array[k] < value) && (forall k int :: high < k && k < len(array) ==> array[k] > value)
 //@           decreases high - low + 1
 
+// nls(t, p): the position just after the first line break at or after p (LF, CR, CRLF as one,
+// U+2028, U+2029, U+0085), or -1 when the rest of the text has none. The line table is the chain
+// 0, nls(0), nls(nls(0)), ... up to the last line.
+//@ spec rec nls(t string, p int) int := (p < 0 || p >= len(t)) ? -1 : (urune(t[p:]) == 13 ? ((p + 1 < len(t) && t[p+1] == 10) ? p + 2 : p + 1) : ((urune(t[p:]) == 10 || urune(t[p:]) == 8232 || urune(t[p:]) == 8233 || urune(t[p:]) == 133) ? p + usize(t[p:]) : nls(t, p + usize(t[p:]))))
+//@ spec chain(r []int, t string) bool := forall i int :: 0 <= i && i + 1 < len(r) ==> r[i+1] == nls(t, r[i])
+
 //@ func ComputeLineStarts
 //@   tags [C15,C01]
 //@   panics never
 //@   ensures starts(result, len(text))
+//@   ensures[C15] result[0] == 0 && chain(result, text) && nls(text, result[len(result)-1]) == -1
 //@   loop 1: invariant 0 <= lineStart && lineStart <= pos && pos <= len(text)
 //@           invariant ascending(result) && (forall i int :: 0 <= i && i < len(result) ==> result[i] < lineStart)
 //@           invariant len(result) == 0 ? lineStart == 0 : result[0] == 0
+//@           invariant[C15] nls(text, pos) == nls(text, lineStart) && chain(result, text) && (len(result) > 0 ==> nls(text, result[len(result)-1]) == lineStart)
 //@           decreases len(text) - pos
 
 //@ func PositionFromOffsetWithCache
